@@ -80,6 +80,9 @@ pub struct CallFrame {
     // SAFETY: Nothing in `CallFrameFlags` requires tracing, so this is safe.
     #[unsafe_ignore_trace]
     pub(crate) flags: CallFrameFlags,
+
+    /// The accumulator (pending completion value) of the caller while this frame is running.
+    pub(crate) caller_return_value: JsValue,
 }
 
 /// ---- `CallFrame` public API ----
@@ -155,6 +158,7 @@ impl CallFrame {
             environments,
             realm,
             flags: CallFrameFlags::empty(),
+            caller_return_value: JsValue::undefined(),
         }
     }
 
